@@ -138,7 +138,9 @@ func genContract(fn *ssa.Function) *Contract {
 			for _, cd := range conds {
 				c.Posts = append(c.Posts, &Post{Kind: "ret>=0", Ret: k, Cond: cd})
 			}
-			c.Posts = append(c.Posts, &Post{Kind: "ret>=1", Ret: k})
+			for _, cd := range conds {
+				c.Posts = append(c.Posts, &Post{Kind: "ret>=1", Ret: k, Cond: cd})
+			}
 			if b, ok := rt.Underlying().(*types.Basic); ok && b.Kind() == types.Int {
 				for _, n := range []int64{255, 65535, 65537, 1<<31 - 1, 1<<32 - 1, 1<<32 + 8, 1 << 62} {
 					c.Posts = append(c.Posts, &Post{Kind: "ret<=c", Ret: k, C: n})
